@@ -134,6 +134,8 @@ func shapeOf(t types.Type) []Sort {
 			s = []Sort{IntSort}
 		case u.Kind() == types.UntypedNil:
 			s = []Sort{IntSort}
+		case u.Kind() == types.Invalid:
+			s = []Sort{} // blank component of a range tuple
 		default:
 			panic(unsupported{"type " + k})
 		}
